@@ -395,7 +395,7 @@ def compress_family(tier):
             if lines is None:
                 lines = open(v["shard"]).read().splitlines()
             e = json.loads(lines[x["line"] - 1])
-            viols.append({"mon": x["mon"], "case": e, "cls": "%s:%s" % (e.get("strategy"), e.get("shape", e.get("cmd")))})
+            viols.append({"mon": x["mon"], "case": e, "cls": ("redirect=%s" % e.get("active")) if e.get("kind") == "cross" else "%s:%s" % (e.get("strategy"), e.get("shape", e.get("cmd")))})
     kinds, samples, nontrivial = {}, [], 0
     for f in files:
         with open(f) as fh:
